@@ -51,13 +51,13 @@ Definition step_proc (choices : list Z) (s : st) (k : nat) : list st :=
           | None | Some [] => [upd s k (mk FRemove e t) (Some [e]) (pin s) (att s)]      (* rename succeeds: also over an EMPTY directory *)
           | Some _ => [set_proc s k (mk JOpen e t)]
           end
-      | JOpen =>
+      | JOpen =>                                   (* one attempt of get_ethertype: open(<ethertype>.lock, 'x') *)
           match lockdir s with
           | None => [set_proc s k (mk Aborted e t)]                           (* FileNotFoundError: nothing to undo *)
           | Some files =>
-              if mem E0 files
-              then map (fun c => upd s k (mk JGet1 c t) (Some (c :: files)) (pin s) (att s)) (filter (fun c => negb (mem c files)) choices)
-              else [upd s k (mk JGet1 E0 t) (Some (E0 :: files)) (pin s) (att s)]
+              if mem e files
+              then map (fun c => set_proc s k (mk JOpen c t)) choices          (* FileExistsError: draw another ethertype, try again *)
+              else [upd s k (mk JGet1 e t) (Some (e :: files)) (pin s) (att s)]
           end
       | JGet1 => match pin s with Some o => [set_proc s k (mk Running e o)] | None => [set_proc s k (mk JGet2 e t)] end
       | JGet2 => match pin s with Some o => [set_proc s k (mk Running e o)] | None => [set_proc s k (mk JUndo e t)] end
